@@ -7,12 +7,23 @@
 
 namespace etl {
 
+namespace detail {
+// Cross-cancel before multiplying: R1 and R2 are in lowest terms, so the products below are
+// already the numerator and denominator of the result and overflow only if the result does.
+template <typename R1, typename R2>
+struct ratio_multiply_impl {
+    static constexpr intmax_t g1 = gcd(R1::num, R2::den);
+    static constexpr intmax_t g2 = gcd(R2::num, R1::den);
+    using type = typename ratio<(R1::num / g1) * (R2::num / g2), (R1::den / g2) * (R2::den / g1)>::type;
+};
+} // namespace detail
+
 /// \brief The alias template ratio_multiply denotes the result of
 /// multiplying two exact rational fractions represented by the ratio
 /// specializations R1 and R2.
 /// \ingroup ratio
 template <typename R1, typename R2>
-using ratio_multiply = typename ratio<R1::num * R2::num, R1::den * R2::den>::type;
+using ratio_multiply = typename detail::ratio_multiply_impl<R1, R2>::type;
 
 } // namespace etl
 
